@@ -160,7 +160,7 @@ def gen_case(seed: int, prop: str, tier: str, kind: str | None = None) -> dict:
         case["align"] = 8192
     # faults (namespace side) - 30% of the runs
     if rng.random() < 0.3:
-        opts = {"vhdx": ["missing_parent", "eacces_parent", "corrupt_parent", "no_name"],
+        opts = {"vhdx": ["missing_parent", "eacces_parent", "corrupt_parent", "no_name", "missing_parent_twin"],
                 "vmdk": ["missing_parent", "eacces_parent", "empty_hint", "no_name"],
                 "hdd": ["missing_image", "eacces_parent"],
                 "qcow2": ["no_backing_arg", "allow_no_backing"], "qcow2snap": ["no_backing_arg", "allow_no_backing"] if case.get("raw_backing") else [],
@@ -197,6 +197,8 @@ def gen_case(seed: int, prop: str, tier: str, kind: str | None = None) -> dict:
                 continue
         cops.append(["r", view_i, off, ln])
     case["cops"] = cops
+    case["share_obj"] = rng.random() < 0.5
+    case["reopen"] = rng.random() < 0.3
     return case
 
 
@@ -285,6 +287,17 @@ def build(case: dict, world: World):
                 world.note_fields(img, names[i], root + "/" + dirs[i] + "/" + names[i])
         paths = [(("/C:/hv/" if (case["loc"] == "absolute" and i < n - 1) else root + "/") + dirs[i] + "/" + names[i]) for i in range(n)]
         top = paths[-1]
+        twin_top = None
+        if fault == "missing_parent_twin" and n > 1 and case["loc"] in ("same", "sibling"):
+            # the complete chain also exists elsewhere (the original VM directory next to an evidence copy that lacks an ancestor);
+            # it is opened first and stays open. Same parent linkage, same names - but not where the copy's locator points.
+            for i in range(n):
+                world.fs.add(root + "/original/" + dirs[i] + "/" + names[i], world.fs.files[paths[i]])
+            twin_top = root + "/original/" + dirs[-1] + "/" + names[-1]
+            _apply_ns_fault(world, paths[min(fl, n - 2)], "missing_parent", 0)
+            expect_fail = True
+        elif fault == "missing_parent_twin":
+            fault = None
         if fault in ("missing_parent", "eacces_parent", "corrupt_parent") and n > 1:
             tgt = paths[min(fl, n - 2)]
             _apply_ns_fault(world, tgt, fault, 0)
@@ -293,6 +306,8 @@ def build(case: dict, world: World):
         if fault == "no_name":
             expect_fail = True
 
+        alive = {}
+
         def open_fn(vi):
             from pathlib import Path
 
@@ -300,6 +315,9 @@ def build(case: dict, world: World):
 
             if not named:
                 return VHDX(world.handle(top, named=False))
+            if twin_top and "twin" not in alive:
+                alive["twin"] = VHDX(Path(twin_top))
+                alive["twin"].read(512)
             return VHDX(Path(top)) if case["seed"] % 2 else VHDX(world.handle(top))
 
         return open_fn, views, expect_fail, (lambda s, a, b: s.read_sectors(a, b))
@@ -414,12 +432,20 @@ def build(case: dict, world: World):
             case_fault_layer = None
         topguid_honoured = top_mode in ("default_guid",) or (top_mode == "topguid")
 
+        shared = {}
+
         def open_fn(vi):
             from pathlib import Path
 
             from dissect.hypervisor.disk.hdd import HDD
 
-            h = HDD(Path(d))
+            if case.get("share_obj"):
+                # one HDD object serves every open() of the run (other snapshots, the same snapshot again)
+                if "hdd" not in shared:
+                    shared["hdd"] = HDD(Path(d))
+                h = shared["hdd"]
+            else:
+                h = HDD(Path(d))
             if vi == n - 1 and top_mode != "explicit":
                 return h.open()
             return h.open(guids[vi])
@@ -596,8 +622,11 @@ def run_case(case: dict) -> RunResult:
             case_ops = [["open", len(views) - 1]]
         else:
             case_ops = case["cops"]
-        for op in case_ops:
+        for op_no, op in enumerate(case_ops):
             vi = op[1]
+            if case.get("reopen") and vi in streams and (op_no + case["seed"]) % 2 == 0:
+                del streams[vi]  # the view is opened again (a second stream object for the same state), the old one is dropped
+                world.probes["chain.view_reopened"] += 1
             fails_here = expect_fail is True or (expect_fail is not False and not isinstance(expect_fail, bool) and vi >= expect_fail)
             if vi not in streams:
                 try:
